@@ -107,6 +107,14 @@ def main(argv=None):
             broken.append(("proof", f"Props/{pid}.v", props["output"][-3000:]))
         for a in props["bad_axioms"]:
             broken.append(("axiom", a, f"axiom {a} not in the allow-list appears under Print Assumptions"))
+    # ---- independent re-check (thorough tier): coqchk on the property's compiled theorems
+    chk_note = None
+    if ok and props["ok"] and args.tier == "thorough" and not os.environ.get("VERIF_NO_COQCHK"):
+        c_ok, c_ax, c_txt = common.coqchk(pid)
+        chk_note = f"coqchk -o PV.Props.{pid}: {'ok' if c_ok else 'FAILED'}; axioms: {', '.join(c_ax) or 'none'}"
+        ctx.log(chk_note)
+        if not c_ok:
+            broken.append(("coqchk", f"Props/{pid}.vo", c_txt))
     # ---- A: source audit
     for b in common.audit_sources():
         broken.append(("audit", b, b))
@@ -192,7 +200,7 @@ def main(argv=None):
         "exhaustive": bool(ctx.exhaustive),
         "known_findings_hit": sorted(known_hit.keys()),
         "model_calls": ctx.model.calls,
-        "notes": ctx.notes,
+        "notes": ctx.notes + ([chk_note] if chk_note else []),
         "programs": ctx.evaluations,
         "disagreements_checked": len(ctx.failures),
         "explanation": getattr(mod, "EXPLANATION", ""),
